@@ -169,6 +169,24 @@ def ob_record(ob, unit):
 
 
 def run_unit(idx):
+    """One unit; a unit that left the modelled subset through a *havocked local* is tried once more with a ten times larger
+    budget for the path-feasibility queries: under heavy machine load a 400 ms query can time out, a timed-out query counts as
+    'feasible', and the spurious path then reads a local that the real paths always define."""
+    from pyvc import state as _state
+    rec = _run_unit_once(idx)
+    if rec.get("unsupported") and any(w in rec["unsupported"] for w in ("havocked", "undefined")) and _state.FEAS_MS < 4000:
+        old = _state.FEAS_MS
+        _state.FEAS_MS = 4000
+        try:
+            rec2 = _run_unit_once(idx)
+        finally:
+            _state.FEAS_MS = old
+        rec2["retried_with_larger_feasibility_budget"] = True
+        return rec2
+    return rec
+
+
+def _run_unit_once(idx):
     unit = _UNITS[idx]
     t0 = time.time()
     rec = {"unit": unit.name, "kind": unit.kind, "qualname": unit.qualname, "obligations": [], "error": None,
